@@ -44,7 +44,7 @@ def _gene_events(args):
         if rnd.random() < 0.35:
             ws = rnd.randrange(0, 30)
             cwin = (ws, len(root)) if rnd.random() < 0.5 else (0, ws + 6)
-            chunk = seq_chunk_to_parent(root[cwin[0]:cwin[1]], "chr", cwin[0], cwin[1])
+            chunk = E.chunk_parent(root, cwin[0], cwin[1], minus=rnd.random() < 0.3)
         for n, (i, fl) in enumerate(zip(idxs, flags)):
             bl, st, cacb = POOL[i]
             cds = cds_blocks(bl, st, *cacb) if cacb else None
